@@ -162,8 +162,18 @@ def category(cat):
     return s.negate() if neg else s
 
 
+_CF = {}
+
+
 def _casefold(cs):
     """IGNORECASE closure (simple one-to-one case mapping, as sre applies it)."""
+    r = _CF.get(cs)
+    if r is None:
+        r = _CF[cs] = _casefold1(cs)
+    return r
+
+
+def _casefold1(cs):
     extra = []
     for lo, hi in cs.r:
         if hi - lo > 2000:
@@ -260,6 +270,15 @@ def _conv(op, av, flags):
     if name == 'CATEGORY':
         return ('cs', category(av))
     raise AnalysisError(f'unsupported regex construct {name}')
+
+
+def compiles(pattern, flags=0):
+    """Does the pattern parse (syntax only)?  Returns (ok, message)."""
+    try:
+        sre_parse.parse(pattern, flags)
+        return True, ''
+    except re.error as e:
+        return False, str(e)
 
 
 def strip_anchors(n):
